@@ -320,6 +320,7 @@ class Env(object):
         if deviation:
             # the event lands inside the current step: remember it in the step label
             self.cur.setdefault('dev', []).append(ev)
+            self.cur.setdefault('devinfo', []).append({'ev': ev, 'pending': len(p.event), 'wire_len': len(self.cur['wire'])})
         else:
             self.cur = self._new_step(ev)
         self._apply(p, ev)
